@@ -1271,6 +1271,12 @@ func runC13(r *Run, rng *Rng, replay string) {
 	mark("agile")
 	c13sinfoCases(r, rng, thorough)
 	mark("sinfo")
+	c13kdCases(r, rng, pws, thorough)
+	mark("kd")
+	for i, k := range c13openKinds {
+		c13openmap(r, k, uint64(i)+r.Seed*100)
+	}
+	mark("openmap")
 	for _, p := range pws {
 		c13u16(r, p)
 	}
@@ -1347,6 +1353,21 @@ func c13replay(r *Run, rng *Rng, path string) {
 			if len(w) == 3 {
 				v := ints(w[1:])
 				c13agilen(r, v[0], v[1])
+			}
+		case "kds":
+			if len(w) == 4 {
+				n, _ := strconv.Atoi(w[3])
+				c13kds(r, []byte(unhx(w[1])), unhx(w[2]), n)
+			}
+		case "kda":
+			if len(w) == 6 {
+				v := ints(w[3:5])
+				c13kda(r, []byte(unhx(w[1])), unhx(w[2]), v[0], v[1], []byte(unhx(w[5])))
+			}
+		case "openmap":
+			if len(w) >= 3 {
+				n, _ := strconv.ParseUint(w[2], 10, 64)
+				c13openmap(r, w[1], n)
 			}
 		case "sinfo":
 			if len(w) == 3 {
